@@ -31,6 +31,8 @@ const (
 	PredWellFormed                  // C09: Get legal, Vector grammatical+canonical, scores do not panic
 	PredIllegal                     // C07/C09/C18: illegal values / unknown abbreviations refused, object unchanged, error kind
 	PredForeign                     // C13: Vector() of this version rejected by the other parsers
+	PredErrKind                     // C18: the refusal carries the documented error value
+	PredCanonical                   // C08: Vector() is the canonical spelling (C02/C09/C13 only need it grammatical and faithful)
 )
 
 type OS[T comparable, P Object[T]] struct {
@@ -222,7 +224,7 @@ func (s *OS[T, P]) RunOps(start string, ops [][]string, preds Pred) (key, expect
 			if o != before {
 				return "Set(" + abv + ")/failed-set-changed-object", "object unchanged", fmt.Sprintf("step %d Set(%q,%q): %v -> %v", step, abv, val, s.I.Describe(before), s.I.Describe(o))
 			}
-			if preds&PredIllegal != 0 {
+			if preds&PredErrKind != 0 {
 				if got, ok := s.I.IsBadAbv(err); !ok || got != abv {
 					return "Set(unknown)/wrong-error", fmt.Sprintf("*ErrInvalidMetric{Abv:%q}", abv), fmt.Sprintf("step %d Set(%q,%q) returned %T %v", step, abv, val, err, err)
 				}
@@ -234,7 +236,7 @@ func (s *OS[T, P]) RunOps(start string, ops [][]string, preds Pred) (key, expect
 			if o != before {
 				return "Set(" + abv + ")/failed-set-changed-object", "object unchanged", fmt.Sprintf("step %d Set(%q,%q): %v -> %v", step, abv, val, s.I.Describe(before), s.I.Describe(o))
 			}
-			if preds&PredIllegal != 0 && !errors.Is(err, s.I.ErrValue) {
+			if preds&PredErrKind != 0 && !errors.Is(err, s.I.ErrValue) {
 				return "Set(" + abv + ")/wrong-error", "ErrInvalidMetricValue", fmt.Sprintf("step %d Set(%q,%q) returned %T %v", step, abv, val, err, err)
 			}
 		default:
@@ -278,13 +280,22 @@ func (s *OS[T, P]) stateInvariants(a spec.Assignment, o T, preds Pred) (key, exp
 // stateInvariantsV also returns the string Vector() returned (for the retained-string check of the sweeps).
 func (s *OS[T, P]) stateInvariantsV(a spec.Assignment, o T, preds Pred) (key, expected, observed, vec string) {
 	ver := s.I.Ver
-	if preds&(PredRoundTrip|PredWellFormed|PredForeign) != 0 {
+	if preds&(PredRoundTrip|PredWellFormed|PredForeign|PredCanonical) != 0 {
 		if p := Safely(func() { vec = P(&o).Vector() }); p != nil {
 			return "Vector-panic", "no panic", fmt.Sprint(p), vec
 		}
-		want := ver.Canon(a)
-		if vec != want {
-			return "Vector/not-canonical", want, vec, vec
+		if preds&PredCanonical != 0 {
+			if want := ver.Canon(a); vec != want {
+				return "Vector/not-canonical", want, vec, vec
+			}
+		} else if ra, ok := ver.Parse(vec); !ok {
+			return "Vector/not-grammatical", "a well-formed v" + ver.Name + " vector (canonical spelling would be " + ver.Canon(a) + ")", vec, vec
+		} else {
+			for i := range ra {
+				if ra[i] != a[i] {
+					return "Vector/says-" + ver.Metrics[i].Abv + "-differently", ver.Metrics[i].Abv + ":" + ver.Metrics[i].Values[a[i]], "Vector() = " + vec, vec
+				}
+			}
 		}
 		if preds&PredRoundTrip != 0 {
 			var back *T
@@ -526,7 +537,7 @@ func (s *OS[T, P]) Sweep(dims []Dim, bg spec.Assignment, preds Pred, workers int
 						succ := o
 						err := P(&succ).Set(m.Abv, val)
 						trans++
-						if err == nil || succ != o || !errors.Is(err, s.I.ErrValue) {
+						if err == nil || succ != o || (preds&PredErrKind != 0 && !errors.Is(err, s.I.ErrValue)) {
 							s.report(a, []string{"Set", m.Abv, val}, preds, "illegal-value", fmt.Sprintf("err=%v", err))
 						}
 					}
@@ -541,14 +552,14 @@ func (s *OS[T, P]) Sweep(dims []Dim, bg spec.Assignment, preds Pred, workers int
 					if err != nil {
 						got, ok = s.I.IsBadAbv(err)
 					}
-					if err == nil || succ != o || !ok || got != abv {
+					if err == nil || succ != o || (preds&PredErrKind != 0 && (!ok || got != abv)) {
 						s.report(a, []string{"Set", abv, val}, preds, "unknown-abv", fmt.Sprintf("err=%v", err))
 					}
 					_, gerr := P(&succ).Get(abv)
 					trans++
 					if gerr == nil {
 						s.reportGet(a, abv, "nil error")
-					} else if got, ok := s.I.IsBadAbv(gerr); !ok || got != abv {
+					} else if got, ok := s.I.IsBadAbv(gerr); preds&PredErrKind != 0 && (!ok || got != abv) {
 						s.reportGet(a, abv, fmt.Sprintf("%T %v", gerr, gerr))
 					}
 				}
